@@ -87,6 +87,9 @@ def npz_event(darsia, rng, cfg, tid, work):
     return e
 
 
+BPAT = [-1]
+
+
 def bytes_event(darsia, rng, fmt, bits, layout, tid, shape=None):
     import cv2
     dt = np.uint8 if bits == 8 else np.uint16
@@ -94,6 +97,15 @@ def bytes_event(darsia, rng, fmt, bits, layout, tid, shape=None):
     top = 250 if bits == 8 else 60000
     if layout == "colour":
         arr = (np.arange(H * W * 3).reshape(H, W, 3) * 37 % top).astype(dt)
+        # (what the colour image shows, by turns: generic; grey values - the three channels equal; all black; one saturated pixel)
+        BPAT[0] += 1
+        if BPAT[0] % 4 == 1:
+            arr = np.repeat(arr[..., :1], 3, axis=2)
+        elif BPAT[0] % 4 == 2:
+            arr = np.zeros_like(arr)
+        elif BPAT[0] % 4 == 3:
+            arr = np.zeros_like(arr)
+            arr[-1, -1] = top
         enc_in = arr[..., ::-1]  # encoder expects BGR
     elif layout == "single":
         arr = (np.arange(H * W).reshape(H, W, 1) * 37 % top).astype(dt)
